@@ -1,10 +1,15 @@
 """C19 — password hashing (mpgameserver/auth.py).
-Correspondence units: auth_verify, auth_hash (+ auth_split, auth_prepare, auth_unpack, auth_consts).
-sha256, base64 and scrypt are oracles of the model: the harness asks the MODEL which queries it
-makes (fields of the split string, the scrypt call it prepared) and answers them with the real
-libraries, so the string parsing / glue is compared exactly and the libraries are never
-re-implemented.  Oracle: the property restated over the implementation alone; a True result is
-re-derived independently with hashlib (a different scrypt / sha256 binding).
+Correspondence units: auth_verify, auth_prepare, auth_hash, auth_split, auth_unpack, auth_consts, auth_b64encode
+(+ auth_b64strict, the reference decoder that witnesses the consistency of the decoder premises).
+sha256, base64 DEcoding and scrypt are oracles of the model: the harness asks the MODEL which queries it
+makes (fields of the split string, the scrypt call it prepared) and answers them with the real libraries,
+so the string parsing / glue is compared exactly and those libraries are never re-implemented.  The
+scrypt call the IMPLEMENTATION prepares is observed through a recording wrapper around scrypt.Scrypt and
+compared with the model's `prepare` (salt, length, N, r, p, expected digest, key material).
+base64.b64encode is modelled (Model/Base64.v) and compared with the library directly.
+Oracle: `spec`, an independent restatement of verify_password written from the property (hashlib's
+scrypt / sha256, a different binding), must agree with the implementation on every case, and the
+generator's own expectation for the case (honest pair / corruption class) must be met.
 
 Cost: one scrypt derivation with the code's parameters (N=16384, r=16) is ~0.08 s.  Real hashes
 are used for a small set; the sweeps (every truncation, every single-character edit, parameter
@@ -16,7 +21,7 @@ RULE = ("real hashes of a small password set (empty, NUL, 10 kB, near-identical 
         "and with near-miss passwords; same-format hashes with cheap scrypt parameters corrupted in every way: "
         "every truncation position, every field removed / duplicated, every single-character replacement / "
         "deletion / insertion in each field, every (salt_length, length) pair on a grid, every parameter byte "
-        "edit, wrong argument types; non-trivial = a corrupted string that still has four fields and decodes "
+        "edit, wrong argument types, the D14 witnesses; non-trivial = a corrupted string that still has four fields and decodes "
         "(reaches scrypt) or an honest pair")
 ASSUMPTIONS = ["premises of the theorems about base64.b64decode: b64decode(b64encode(x)) = x (b64_roundtrip); a proper prefix "
                "of an encoding is refused or decodes to fewer bytes (b64_prefix_shorter); it fails with binascii.Error, a "
@@ -29,7 +34,8 @@ ASSUMPTIONS = ["premises of the theorems about base64.b64decode: b64decode(b64en
                "the salt; verify_other_iff proves the premise is also necessary",
                "os.urandom returns 16 bytes (len salt = 16), distinct between the two calls (premise s1 <> s2 of fresh_salt_differs)",
                "str.encode('utf-8') of the hash string is an input of the model (PStr enc); UnicodeEncodeError counts as ValueError"]
-TRUSTED = ["cryptography (SHA256, Scrypt), base64, os.urandom: oracles of the model, answers taken from the real libraries",
+TRUSTED = ["cryptography (SHA256, Scrypt), base64.b64decode, os.urandom, str.encode: oracles of the model, answers taken from the real "
+           "libraries; what the theorems assume of them is listed under assumptions",
            "CPU/memory cost of verification with hostile embedded parameters (N*r*p up to 32768*255*255) is not covered"]
 
 STD = 16384 * 16 * 1
@@ -197,16 +203,61 @@ def verify_batch(ctx, cases, unit="auth_verify"):
     live = [i for i, c in enumerate(cases) if not c.get("skip")]
     # stage 3: implementation and model
     impl, margs = [], []
+    prep_of = dict(zip(idx, preps))
+    p_cases, p_impl, p_mod = [], [], []
     for i in live:
         c = cases[i]
-        impl.append(lib.guarded(Auth.verify_password, c["pw"], c["h"], wrap=as_flag))
+        o, calls = spied_verify(c["pw"], c["h"])
+        impl.append(o)
+        # the scrypt call the IMPLEMENTATION prepared (observed through a recording wrapper around
+        # scrypt.Scrypt) against the model's `prepare`: salt, length, N, r, p, expected digest, key material
+        if i in prep_of:
+            pr = prep_of[i]
+            init = [x for x in calls if x[0] == "init"]
+            ver = [x for x in calls if x[0] == "verify"]
+            if pr[0] == 0:
+                km = ctx.sha(c["pw"])
+                want = [0, pr[1][:5] + ([pr[1][5], km] if ver else [])]
+            else:
+                want = [1, pr[1]]
+            if len(init) > 1 or len(ver) > 1 or (ver and not init):
+                got = ["unexpected scrypt calls", [x[0] for x in calls]]
+            elif init:
+                got = [0, init[0][1:] + (ver[0][1:][::-1] if ver else [])]
+            else:
+                got = o if o[0] == 1 else ["no scrypt call but a result", o]
+            p_cases.append(describe(c)); p_impl.append(got); p_mod.append(want)
         shatab = [[c["pw"], ctx.sha(c["pw"])]] if isinstance(c["pw"], bytes) else []
         margs.append([v_py(c["pw"]), v_py(c["h"]), shatab, b64tabs.get(i, []), kdftabs.get(i, [])])
     mod = M.call_many("auth_verify", margs)
     run.compare(unit, [describe(cases[i]) for i in live], impl, mod)
+    run.compare("auth_prepare", p_cases, p_impl, p_mod)
     for i, o in zip(live, impl):
         judge(ctx, cases[i], o)
     return {i: o for i, o in zip(live, impl)}
+
+
+def spied_verify(pw, h):
+    """Auth.verify_password with scrypt.Scrypt wrapped by a recorder (the real class does the work)"""
+    import mpgameserver.auth as A
+    real = A.scrypt.Scrypt
+    calls = []
+
+    class Spy:
+        def __init__(self, salt, length, n, r, p, backend=None):
+            calls.append(["init", salt, length, n, r, p])
+            self.k = real(salt, length, n, r, p)
+
+        def verify(self, key_material, expected):
+            calls.append(["verify", key_material, expected])
+            return self.k.verify(key_material, expected)
+
+        def derive(self, key_material):
+            calls.append(["derive", key_material])
+            return self.k.derive(key_material)
+    with unittest.mock.patch.object(A.scrypt, "Scrypt", Spy):
+        o = lib.guarded(A.Auth.verify_password, pw, h, wrap=as_flag)
+    return o, calls
 
 
 def describe(c):
